@@ -21,7 +21,9 @@ REQUIRED_MONITORS = ["is_unlabeled", "is_labeled", "unlabeled_indices", "labeled
 SENT = [("str_prefix", "nan", "<U3", ["n", "na", "y"]),      # labels that are prefixes of the (longer) sentinel
         ("nan", np.nan, float, [0.5, 1.0, 2.0]), ("nan32", np.float32("nan"), float, [0.5, 1.0, 2.0]), ("none_num", None, object, [1, 2, 3]),
         ("none_str", None, object, ["a", "b", "c"]), ("neg1", -1, int, [0, 3, 7]), ("neg1f", -1.0, int, [0, 3, 7]), ("float_s", -1.5, float, [0.0, 1.0, 2.5]),
-        ("int99", 99, int, [10, 20, 30]), ("str_s", "zz", "<U2", ["a", "b", "c"]), ("empty", "", "<U2", ["a", "b", "c"])]
+        ("int99", 99, int, [10, 20, 30]), ("str_s", "zz", "<U2", ["a", "b", "c"]), ("empty", "", "<U2", ["a", "b", "c"]),
+        # a sentinel that single precision cannot represent exactly, stored in a float32 array
+        ("f32_nonrep", -999.9, np.float32, [0.5, 1.0, 2.0])]
 _ready = [False]
 
 
@@ -152,7 +154,8 @@ def run_case(desc):
         # no missing entry: natural (possibly narrower) dtype, as built from the labels alone
         y = np.array(y.tolist())
         flat = y.reshape(-1)
-    arg = y.tolist() if desc["as_list"] and y.size else y
+    # (an empty list carries no label type at all; a list of Python floats would not hold the single-precision sentinel)
+    arg = y.tolist() if desc["as_list"] and name != "f32_nonrep" else y
     fc.drain()
     viol = []
 
@@ -179,7 +182,7 @@ def run_case(desc):
         use_classes = desc["use_classes"]
         if use_classes or (y.size and (~mask).any()):
             le = U.ExtLabelEncoder(classes=classes if use_classes else None, missing_label=ml)
-            enc = le.fit_transform(y)
+            enc = le.fit_transform(arg)
             dec = le.inverse_transform(enc)
             fc.count("C16.round-trip-oracle")
             want_classes = sorted(set(classes)) if use_classes else sorted(set(flat[~mflat].tolist()))
@@ -196,8 +199,22 @@ def run_case(desc):
                     add("ExtLabelEncoder", "wrong-code", "y=%r enc=%r" % (_short(y), np.asarray(enc).tolist()))
             if np.asarray(dec).shape != y.shape:
                 add("ExtLabelEncoder", "round-trip-changes-shape", "y shape %s -> %s" % (y.shape, np.asarray(dec).shape))
-            elif not all(_eq(d, o) for d, o in zip(np.asarray(dec).reshape(-1).tolist(), flat.tolist())):
+            elif not all((m and bool(is_missing(np.asarray(dec).reshape(-1)[i:i + 1], ml)[0])) or _eq(d, o) for i, (d, o, m) in enumerate(
+                    zip(np.asarray(dec).reshape(-1).tolist(), flat.tolist(), mflat.tolist()))):
+                # (a missing entry comes back as the missing label, in the data type of the decoded array)
                 add("ExtLabelEncoder", "round-trip-fails", "y=%r -> %r -> %r" % (_short(y), np.asarray(enc).tolist(), np.asarray(dec).tolist()))
+            # ---- the array the encoder was fitted on gets a label in place (the usual loop), then is transformed again
+            if mask.any() and (~mask).any():
+                y3 = y.copy()
+                le3 = U.ExtLabelEncoder(classes=classes if use_classes else None, missing_label=ml).fit(y3)
+                pos = tuple(np.argwhere(mask)[0])
+                newlab = flat[~mflat][0]
+                y3[pos] = newlab
+                enc3 = np.asarray(le3.transform(y3))
+                fc.count("C16.transform-after-in-place-labelling")
+                if enc3[pos] != want_classes.index(newlab):
+                    add("ExtLabelEncoder", "transform-ignores-label-written-into-the-fitted-array",
+                        "fit(y), y%r = %r, transform(y)%r = %r, expected %r" % (list(pos), newlab, list(pos), enc3[pos], want_classes.index(newlab)))
             # ---- the same encoder object fitted again with another class list (set_params / copy / pickle in between)
             # must behave like a fresh encoder built with that list
             classes2 = sorted(set(classes))[:2]
